@@ -1178,6 +1178,11 @@ class Porter(object):
                 steward.requestant.parse()
 
                 if steward.requestant.ended:
+                    if steward.requestant.errored:  # malformed request so give up on connection
+                        console.terse("Malformed request from {0}. {1}\n".format(
+                            ca, steward.requestant.error))
+                        self.closeConnection(ca)
+                        continue
                     steward.requestant.dictify()
                     console.concise("Parsed Request:\n{0} {1} {2}\n"
                                     "{3}\n{4}\n".format(steward.requestant.method,
